@@ -98,6 +98,11 @@ static void sec_ctr(void)
                 int n = CUTS[cut][i];
                 r &= ctr_encrypt((Cipher)c, &o, sbuf_out + pos, sbuf_in + pos, (size_t)n);
                 pos += (size_t)n;
+                if (cut == 1 && i == 0 && clen != 99 && clen > 0) {      /* a seek inside the batch that is still buffered, then one far away */
+                    uint8_t c2[16]; memcpy(c2, ctr, 16); c2[clen - 1] = (uint8_t)(c2[clen - 1] + 3);
+                    r &= ctr_set_counter((Cipher)c, &o, c2, clen);
+                }
+                if (cut == 1 && i == 2 && clen != 99 && clen > 0) { uint8_t c2[16]; memcpy(c2, ctr, 16); c2[0] ^= 0x40; r &= ctr_set_counter((Cipher)c, &o, c2, clen); }
                 if (cut == 3 && i == 3) r &= ctr_set_key((Cipher)c, &o, KEYS[1] + 1, c == CK_MANTIS ? 16 : (unsigned)bs, 6);   /* mid-stream re-key */
                 if (cut == 2 && i == 1 && (c != CK_MANTIS ? kc >= 3 : 1)) r &= ctr_set_tweak((Cipher)c, &o, KEYS[1] + 5, (unsigned)bs);  /* mid-stream tweak change */
                 if (i >= 12) break;
@@ -123,7 +128,14 @@ static void sec_par(void)
             arena_reset(); memset(&o, 0, sizeof(o));
             if (!par_init((Cipher)c, BE, &o)) engine_error("par init");
             r = par_set_key((Cipher)c, &o, KEYS[kc & 1], c == CK_MANTIS ? 16 : (unsigned)bs * (unsigned)(1 + kc % 3) + (kc == 3 ? 5u : 0u), 5 + (unsigned)kc, dir);
-            r &= par_crypt((Cipher)c, &o, sbuf_out, sbuf_in, sbuf_in + 700, (size_t)(n * bs), dir);
+            {   /* per-block tweaks (Mantis): random bytes, all zero, big-endian block number, one late non-zero tweak per group */
+                static uint8_t twa[26 * 8 + 8]; int i2;
+                memcpy(twa, sbuf_in + 700, sizeof(twa));
+                if (n % 4 == 1) memset(twa, 0, sizeof(twa));
+                else if (n % 4 == 2) { memset(twa, 0, sizeof(twa)); for (i2 = 0; i2 <= 25; ++i2) twa[i2 * 8 + 7] = (uint8_t)i2; }
+                else if (n % 4 == 3) { memset(twa, 0, sizeof(twa)); for (i2 = 0; i2 <= 25; ++i2) if (i2 % 8 == 5 || i2 == n - 1) twa[i2 * 8 + 7] = (uint8_t)(1 + i2 / 8); }
+                r &= par_crypt((Cipher)c, &o, sbuf_out, sbuf_in, twa, (size_t)(n * bs), dir);
+            }
             par_cleanup((Cipher)c, &o);
             ++g_cnt.evaluations;
             out_digest(c == 0 ? "S7-skinny128-parallel" : (c == 1 ? "S7-skinny64-parallel" : "S7-mantis-parallel"), sbuf_out, (size_t)(n * bs));
